@@ -85,7 +85,7 @@ Step(ww, r) ==
     [] r.e = "resolve"    -> WResolve(ww, r.c, r.n, JRes(r.res))
     [] r.e = "cancel"     -> WCancel(ww, r.c, r.n)
     [] r.e = "drop_handle" -> WDropHandle(ww, r.left)
-    [] r.e = "change"     -> WChange(ww, r.subs)
+    [] r.e = "change"     -> WChangeX(ww, r.subs, r.extra)
     [] r.e = "event"      -> IF r.t = "chg" THEN WEvent(ww, r.name) ELSE WClosingEvent(ww, r.kind)
     [] r.e = "events_end" -> WEventsEnd(ww)
     [] r.e = "events_dropped" -> WEventsDropped(ww)
@@ -103,7 +103,7 @@ Step(ww, r) ==
     [] r.e = "harness_panic" -> V(ww, "PANIC", "the session driver panicked", "")
     [] OTHER              -> ww      \* write, noop, drain, io_dropped: no effect on the world
 
-Init == i = 0 /\ run = -1 /\ w = [InitW(FALSE, <<>>, <<>>, FALSE, "ok", [embedded |-> -1, file |-> -1, hasMime |-> FALSE, mime |-> <<>>, limit |-> 1, embedded_ack |-> 0, file_ack |-> 0, vary |-> FALSE, ackp |-> FALSE]) EXCEPT !.viol = <<>>] @@ [nhCfg |-> 0]
+Init == i = 0 /\ run = -1 /\ w = [InitW(FALSE, <<>>, <<>>, FALSE, "ok", [embedded |-> -1, file |-> -1, hasMime |-> FALSE, mime |-> <<>>, limit |-> 1, embedded_ack |-> 0, file_ack |-> 0, vary |-> FALSE, ackp |-> FALSE, tfirst |-> FALSE]) EXCEPT !.viol = <<>>] @@ [nhCfg |-> 0]
 
 Next == /\ i < Len(Recs)
         /\ i' = i + 1
